@@ -233,19 +233,21 @@ theorem pool_exactly_once_while_running (c : Pool.Cfg) (s : Pool.St) (h : Pool.R
     ∀ j, s.addSt j = .accepted → s.runs j = 1 :=
   fun j ha => Pool.rest_all_started (Pool.reachable_inv h) hq hst hlive w hw j ha
 
-/-- the rest-point predicate of the correspondence run: at such a rest point no accepted job is pending -/
+/-- the rest-point predicate of the correspondence run (`busy < n` is how the harness knows that a
+    worker is idle): at a rest point of a pool with an idle worker that keeps running, the list of jobs
+    that were accepted but not run is empty -/
 theorem pool_rest_allowed (c : Pool.Cfg) (s : Pool.St) (h : Pool.Reachable c s)
     (hq : Pool.Quiescent c s) (hst : s.started = true) (w : Nat) (hw : s.ws[w]? = some .idle)
-    (busy pending : Nat) (hp : pending ≠ 0 → ∃ j, s.addSt j = .accepted ∧ s.runs j = 0) :
-    allowedRest (w + 1) w pending (!s.wctxEnded) = true ∨ allowedRest c.n busy pending (!s.wctxEnded) = true := by
-  right
+    (pending : List Nat) (hp : ∀ j ∈ pending, s.addSt j = .accepted ∧ s.runs j = 0) (busy : Nat) :
+    allowedRest c.n busy pending.length (!s.wctxEnded) = true := by
   cases hl : s.wctxEnded with
   | true => simp [allowedRest]
   | false =>
-    have : pending = 0 := by
-      by_cases h0 : pending = 0
-      · exact h0
-      · obtain ⟨j, ha, hr⟩ := hp h0
+    have : pending = [] := by
+      cases hpd : pending with
+      | nil => rfl
+      | cons j l =>
+        obtain ⟨ha, hr⟩ := hp j (by simp [hpd])
         have := pool_exactly_once_while_running c s h hq hst hl w hw j ha
         omega
     simp [allowedRest, this]
@@ -297,6 +299,39 @@ example :
     (Pool.run poolSample Pool.init poolSampleRun).map (fun s => ([0, 1, 2, 3].map s.runs, s.coll)) =
       some ([1, 1, 1, 0], [2, 1]) := by
   decide +kernel
+
+/-- the hypotheses of `pool_exactly_once_while_running` are satisfiable: the sample run ends in a rest point -/
+example : ∃ s, Pool.run poolSample Pool.init poolSampleRun = some s ∧ Pool.Quiescent poolSample s ∧
+    s.started = true ∧ s.wctxEnded = false ∧ s.ws[0]? = some .idle := by
+  refine ⟨_, rfl, ?_, rfl, rfl, rfl⟩
+  intro a ha
+  cases a with
+  | startPool => cases ha
+  | cancel => cases ha
+  | add _ _ => cases ha
+  | release _ => cases ha
+  | shutdown => rfl
+  | read => rfl
+  | handoff w => rfl
+  | drop => rfl
+  | rdExit => rfl
+  | wstart w =>
+    match w with
+    | 0 => rfl
+    | 1 => rfl
+    | _ + 2 => rfl
+  | wfinish w =>
+    match w with
+    | 0 => rfl
+    | 1 => rfl
+    | _ + 2 => rfl
+  | wexit w =>
+    match w with
+    | 0 => rfl
+    | 1 => rfl
+    | _ + 2 => rfl
+  | runReturn => rfl
+  | svcReturn => rfl
 
 /-- … and the shutdown after it: the context is cancelled, the queue closed, the workers return, Wait
     returns with both failures -/
